@@ -317,8 +317,9 @@ def run(tier, seed):
             for blocked in (False, True):
                 for fk in FILEKINDS:
                     cfg = (writer, blocked, fk)
-                    if core.AXIS and (len(init) + seed) % (8 if core.AXIS == 'debuglog' else 4) and len(init) < 64:
-                        # on an environment axis: every fourth (writer, blocking, file kind) combination
+                    if core.AXIS and (len(init) + seed) % (7 if core.AXIS == 'debuglog' else 3) and len(init) < 64:
+                        # on an environment axis: every third (debug logging: seventh) (writer, blocking, file kind) combination -
+                        # moduli coprime to the 4 file kinds and 2 blocking modes, so every kind and mode occurs
                         init.append(None)
                         continue
                     r, _ = replay(cfg, [])
